@@ -996,8 +996,13 @@ package larking
 
 // gRPC-web-text: the base64 stream must be closed so that the last partial
 // 3-byte group reaches the client (C06: no lost byte).
-//@ func (*webWriter).writeTrailer trusted
+// (frame assumed at call sites; the body is checked for: the trailer prefix is
+// stripped from a key only after the key itself was found not to be a header that
+// was already sent - a trailer may share its name with a sent header, C14)
+//@ func (*webWriter).writeTrailer serves C14 trusted partial ghost
+//@   requires w != nil
 //@   modifies F$webWriter.wroteHeader, F$webWriter.seenHeaders, G$wr.
+//@   assert atcall `strings.TrimPrefix(` [prefix-stripped-only-after-the-sent-header-check C14] w.seenHeaders == nil || !(maphas(w.seenHeaders, key) && mapval(w.seenHeaders, key))
 //@ func (*webWriter).Flush trusted pure
 // (newWebWriter wraps the response in a base64 encoder, an io.WriteCloser, exactly when typ is grpc-web-text.)
 //@ func (*webWriter).flushWithTrailer serves C06 partial count post nil
@@ -1268,8 +1273,11 @@ package larking
 // handler name, as the implicit rule and the annotation (C19: "behaves exactly
 // as the same rule written as a proto annotation"), and the handler is recorded
 // only after every rule was accepted (C16).
-//@ func (*state).appendHandler serves C19 C16 partial ghost count
+//@ func (*state).appendHandler serves C19 C16 partial ghost count post
+//@   returns (err)
 //@   requires s != nil && h != nil
+//@   count lookups `opts.httprules.getRules(`
+//@   ensures [service-config-consulted-for-every-method C19] err == nil ==> lookups == 1
 //@   count rulesAdded `s.path.addRule(`
 //@   assert atcall `s.path.addRule(` [every-rule-kind-is-compiled-for-the-same-method C19] arg2 == desc && arg3 == h.method
 //@   assert atcall `opts.httprules.getRules(` [service-config-rules-are-looked-up-by-full-name C19] rulesAdded == 1
